@@ -51,6 +51,21 @@ Theorem C22_split_zero_never_ok : forall inv outs postage cd oversize fc t,
   Forall (fun o => forall kv, In kv (s_runes o) -> snd kv <> 0) outs.
 Proof. exact split_zero_never_ok. Qed.
 
+(* Neither construction panics when the wallet's total holding of every rune, and the split
+   file's total request of every rune, fit 128 bits (the `+=` / checked_add().unwrap() sites
+   are the only panics on the modelled path; the supply of a rune is at most u128::MAX, so the
+   first bound holds for every real wallet; a split file may violate the second and then
+   `ord wallet split` aborts on `checked_add(amount).unwrap()` before anything is built). *)
+Theorem C22_send_burn_never_panics : forall inv r a is_send fc p,
+  valid_inv inv -> (forall id, sum_all inv id < P128) ->
+  build_send inv r a is_send fc <> Panic p.
+Proof. exact send_no_panic. Qed.
+
+Theorem C22_split_never_panics : forall inv outs postage cd oversize fc p,
+  valid_inv inv -> (forall id, sum_all inv id < P128) -> (forall id, need_total outs id < P128) ->
+  build_split inv outs postage cd oversize fc <> Panic p.
+Proof. exact split_no_panic. Qed.
+
 (* The allocation lemma both results rest on: for edicts that name a real rune, a non-zero
    amount and a specific output, and that together ask for no more than is unallocated, every
    output receives exactly the sum of its edicts, and the first non-OP_RETURN output
@@ -90,3 +105,5 @@ Print Assumptions C22_send_burn_zero_rejected.
 Print Assumptions C22_split_exact.
 Print Assumptions C22_split_zero_never_ok.
 Print Assumptions C22_uncapped_edicts_exact.
+Print Assumptions C22_send_burn_never_panics.
+Print Assumptions C22_split_never_panics.
